@@ -21,6 +21,8 @@ claimed={
    ref="DESIGN.md section 4 C11", technique="bounded symbolic execution of go/ssa with uninterpreted keystream, inductive step from an arbitrary invariant-satisfying state, term normalisation + SMT (z3 5.1, cvc5 cross-check); counterexamples replayed natively against the real generator"),
  "C04":dict(text="Bounded symbolic model checking of the real AEAD code over an uninterpreted block cipher: CCM Seal/Open (generic Go incl. the real crypto/cipher CTR) against RFC 3610 for nonce sizes 7..13, tag sizes 4..16, plaintexts 0..33 (65) bytes, AAD classes incl. the 0xff00 length-encoding boundary; GCM Seal/Open of the table-driven Go implementation and of the Go wrapper around the fused assembly (kernels as contract models, GF(2^128) multiplication uninterpreted) against SP 800-38D on the SSE and AVX2 batch sizes, nonce sizes incl. non-96-bit (symbolic J0, counter wrap), tag sizes 12..16; Seal only appends; Open succeeds iff the tag recomputed over exactly the received fields equals the received tag, and on failure returns nil with the output region zeroed and the dst prefix untouched.",
    ref="DESIGN.md section 4 C04", technique="bounded symbolic execution of go/ssa over uninterpreted block cipher and field multiplication, SMT (z3 5.1, cvc5 cross-check); counterexamples replayed natively against the real assembly"),
+ "C02":dict(text="Symbolic model checking of the real pure-Go SM4: for every 32-bit word t, t2 and the table-driven precompute_t equal L∘τ / L'∘τ (S-box table as given constant, precomputed tables proved consistent with it); for every key schedule and block encryptBlockGo equals the 32-round structure of GB/T 32907 and the reversed schedule inverts it; for every key expandKeyGo equals the standard's key schedule with FK/CK recomputed from the standard; NewCipher accepts exactly 16-byte keys (lengths 0..64) and Encrypt/Decrypt panic exactly on short buffers; on the asm build the Go dispatch around the kernels (SSE/AVX/AVX2 tiers, single-block AES-NI path, one and two batches, in place or not) equals E/D of the key with the kernels as contract models validated natively against the real assembly. Not bounded in the data: every obligation quantifies over all keys/blocks/words.",
+   ref="DESIGN.md section 4 C02", technique="symbolic execution of go/ssa, word-level lemmas discharged by SMT (z3 5.1, cvc5 cross-check), structural equivalence with uninterpreted T; counterexamples replayed natively"),
 }
 NA={
  "C20":"data-race freedom over all schedules needs a concurrent execution model (threads, happens-before, sync/atomic); the go/ssa symbolic executor is sequential by construction and no Go symbolic concurrency engine is available in the image (DESIGN.md section 4 C20)",
